@@ -8,11 +8,14 @@
   `ValidatedData.get_failures_string()` and `RuleTest.get_failures_string()`.)
 -/
 import Valida.Report
+import Valida.Repr
 import ValidaProofs.Lemmas.Basic
 import ValidaProofs.C05
 import ValidaProofs.C06
+import ValidaProofs.Lemmas.C06Report
 namespace ValidaProofs
 open Valida ValidaGen Valida.Report
+open C06R
 
 /-- `piece` occurs in `s` -/
 def Mentions (s piece : String) : Prop := ∃ pre post : String, s = pre ++ piece ++ post
@@ -23,20 +26,23 @@ def Mentions (s piece : String) : Prop := ∃ pre post : String, s = pre ++ piec
 theorem C06_report_total (ρ : PyVal → String) (κ : Leaf Arg → String) (rs : List RuleM) (doc : PyVal)
     (v : Validated) (h : validate rs doc = .ok v) :
     ∃ s, report ρ κ rs v = .ok s := by
-  sorry
+  obtain ⟨texts, ht, _⟩ := allTexts_spec κ rs v.tests (validate_tested rs doc v h)
+  exact ⟨reportWith ρ v rs.length texts, by simp [report, ht, bind, Except.bind, pure, Except.pure]⟩
 
 /-- A valid document: the report is the one line saying so, with the tested count. -/
 theorem C06_report_valid (ρ : PyVal → String) (κ : Leaf Arg → String) (rs : List RuleM) (v : Validated) (s : String)
     (hs : report ρ κ rs v = .ok s) (hv : v.isValid = true) :
     s = "Data is valid. " ++ toString v.numRulesTested ++ "/" ++ toString rs.length ++ " rules were tested.\n" := by
-  sorry
+  obtain ⟨texts, _, rfl⟩ := report_eq ρ κ rs v s hs
+  exact reportWith_valid ρ v _ texts hv
 
 /-- An invalid document: the report starts with the failure count and the tested count. -/
 theorem C06_report_header (ρ : PyVal → String) (κ : Leaf Arg → String) (rs : List RuleM) (v : Validated) (s : String)
     (hs : report ρ κ rs v = .ok s) (hv : v.isValid = false) :
     ∃ rest, s = toString v.numFailures ++ " rule" ++ (if v.numFailures > 1 then "s" else "") ++
       " failed validation. " ++ toString v.numRulesTested ++ "/" ++ toString rs.length ++ " rules were tested.\n\n" ++ rest := by
-  sorry
+  obtain ⟨texts, _, rfl⟩ := report_eq ρ κ rs v s hs
+  exact ⟨_, reportWith_invalid ρ v _ texts hv⟩
 
 /-- Every failure of every rule test is named in the report: its concrete path and its value, as
     `repr` prints them, in a `Path: … / Value: … / Reasons:` block. -/
@@ -45,7 +51,19 @@ theorem C06_report_names_every_failing_path (ρ : PyVal → String) (κ : Leaf A
     (h : validate rs doc = .ok v) (hs : report ρ κ rs v = .ok s) :
     ∀ t ∈ v.tests, ∀ f ∈ t.failures,
       Mentions s ("Path: " ++ ρ f.path ++ "\nValue: " ++ ρ f.value ++ "\nReasons:\n") := by
-  sorry
+  intro t ht f hf
+  have hT := validate_tested rs doc v h
+  obtain ⟨i, hi⟩ := List.getElem?_of_mem ht
+  have hinv : t.isValid = false := by
+    cases hv : t.isValid with
+    | false => rfl
+    | true =>
+      obtain ⟨r, _, hr⟩ := all2_getElem? hT i t hi
+      have hnil := hr.valid_nil hv
+      rw [hnil] at hf; cases hf
+  obtain ⟨x, hxl, hsec⟩ := report_section ρ κ rs v s hT hs i t hi hinv
+  obtain ⟨reasons, hrr⟩ := ruleReport_failure ρ t x hxl f hf
+  exact hsec.trans ((section_report ρ (i + 1) t x hinv).trans (hrr.trans (failureText_block ρ f reasons)))
 
 /-- Every rule whose test is not valid has its own numbered section, numbered by its position in
     the applied order (from 1). -/
@@ -54,7 +72,8 @@ theorem C06_report_sections (ρ : PyVal → String) (κ : Leaf Arg → String) (
     (h : validate rs doc = .ok v) (hs : report ρ κ rs v = .ok s) (i : Nat) (t : RuleTestR)
     (ht : v.tests[i]? = some t) (hinv : t.isValid = false) :
     Mentions s ("Rule #" ++ toString (i + 1) ++ "\n") := by
-  sorry
+  obtain ⟨x, _, hsec⟩ := report_section ρ κ rs v s (validate_tested rs doc v h) hs i t ht hinv
+  exact hsec.trans (section_head ρ (i + 1) t x hinv)
 
 /-- The reason lines of a failure: one text per recorded reason kind, and at least one. -/
 theorem C06_report_reasons (κ : Leaf Arg → String) (r : RuleM) (doc : PyVal) (t : RuleTestR)
@@ -62,6 +81,44 @@ theorem C06_report_reasons (κ : Leaf Arg → String) (r : RuleM) (doc : PyVal) 
     ∃ texts, reasonTextsOf κ r t = .ok texts ∧ texts.length = t.failures.length ∧
       ∀ (i : Nat) (f : Failure) (x : List String), t.failures[i]? = some f → texts[i]? = some x →
         x.length = f.reasons.length ∧ x ≠ [] := by
-  sorry
+  exact reasonTextsOf_spec κ r t ⟨doc, h⟩
+
+/-! ### non-vacuity: a concrete schema of two rules (one passing, one failing) and its report -/
+
+/-- every child of a mapping (a part object with the null condition) -/
+def c06rPart : Part := { kind := .map, cond := Cond.null, listCond := Cond.null, mapCond := Cond.null, label := none }
+def c06rRule (c : Cond Arg) : RuleM :=
+  { path := { parts := [c06rPart], concrete := false, datum := .none, multi := .none, source := none },
+    cond := c, cast := [] }
+/-- "every child is an int" (passes), "every child equals 1" (fails for `b`) -/
+def c06rSchema : List RuleM :=
+  [c06rRule (.leaf { cls := .value, fn := "is_instance", args := [.lit (.type .int)], kwargs := [] }),
+   c06rRule (.leaf { cls := .value, fn := "equal_to", args := [], kwargs := [("value", .lit (.int 1))] })]
+def c06rDoc : PyVal := .dict [(.str "a", .int 1), (.str "b", .int 2)]
+
+/-- Bool-valued comparison of a report with the expected text (for kernel-evaluated examples) -/
+def reportIs (r : Except Exc String) (expected : String) : Bool :=
+  match r with
+  | .ok s => s.toList == expected.toList
+  | .error _ => false
+
+/-- the validation returns and the report, with constant `repr`s, is literally this text -/
+example : reportIs (do let v ← validate c06rSchema c06rDoc; report (fun _ => "v") (fun _ => "k") c06rSchema v)
+    "1 rule failed validation. 2/2 rules were tested.\n\nRule #2\n-------\nPath: v\nValue: v\nReasons:\n Condition callable returned False: `k`.\n\n"
+    = true := by decide +kernel
+
+/-- the `repr`s of `Valida.Repr` (those the correspondence check runs) -/
+def c06rρ (v : PyVal) : String := match Repr.pyRepr v with | .ok s => s | .error _ => "?"
+def c06rκ (l : Leaf Arg) : String := match Repr.leafRepr l with | .ok s => s | .error _ => "?"
+
+example : reportIs (do let v ← validate c06rSchema c06rDoc; report c06rρ c06rκ c06rSchema v)
+    "1 rule failed validation. 2/2 rules were tested.\n\nRule #2\n-------\nPath: ('b',)\nValue: 2\nReasons:\n Condition callable returned False: `Value.equal_to(value=1)`.\n\n"
+    = true := by decide +kernel
+
+/-- the validation is not valid, has two tests, and the second one carries the one failure -/
+example : (match validate c06rSchema c06rDoc with
+     | .ok v => !v.isValid && v.tests.length == 2 && v.numFailures == 1 &&
+                 v.tests.map (·.isValid) == [true, false]
+     | .error _ => false) = true := by decide +kernel
 
 end ValidaProofs
